@@ -641,7 +641,7 @@ def geogram_chunks(g, ptr_names):
         is_attr_obj = isinstance(itr, ast.Call) and au.call_tail(itr) in ("get_attribute", "create_attribute")
         if match and match[0][4] and not is_attr_obj:
             want_kind = match[0][4][0]
-            cl = [prov.classify(lf.expr, lf.expr) for lf in lvs]
+            cl = [em.leaf_class(prov, lf) for lf in lvs]
             if lvs and all(c_ is None for c_ in cl):
                 ctx.undecided("C04-G1", psite, f"geogram: the values written in chunk {name} are not recognised as mesh elements", "")
             else:
@@ -787,7 +787,7 @@ def g1_attribute_loops(g, names_written):
         seen.add(id(lp))
         site = cx.ws(lp.node)
         keys = set(au.names(lp.target))
-        skipped, bad, only = [], None, None
+        skipped, bad, only, content = [], None, None, None
         for p in c.path[k + 1:]:
             if p[0] != "alt":
                 bad = "nested loop"
@@ -814,10 +814,20 @@ def g1_attribute_loops(g, names_written):
                     handled = True
             if not handled:
                 bad = ("" if pol else "not ") + au.src(t)
+                # does the condition look at the attribute itself (its content), i.e. at `<container>.get_attribute(<key>)` ?
+                for x in au.walk(t):
+                    if isinstance(x, ast.Call) and au.call_tail(x) == "get_attribute" and x.args and isinstance(x.args[0], ast.Name) \
+                            and x.args[0].id in keys:
+                        content = ("" if pol else "not ") + au.src(cc.subst(t, {kk: ast.Name(id="key", ctx=ast.Load()) for kk in keys}))
         if lp.ifs:
             bad = "filter in the comprehension"
         handled_all = all(any(str(nm) == w.split("::")[-1] for w in names_written) for nm in skipped)
         fld = lp.iter.value.attr if isinstance(lp.iter, ast.Attribute) and isinstance(lp.iter.value, ast.Attribute) else "?"
+        if content is not None:
+            ctx.fail("C04-G1", site, f"geogram: an attribute of mesh.{fld} is exported only when a condition on its content holds",
+                     f"exported under `{content}`: an attribute that does not satisfy it (e.g. one holding only default values) is left out of "
+                     f"the file and does not come back with its name, type and arity")
+            continue
         if bad is not None:
             ctx.undecided("C04-G1", site, f"geogram: condition under which the attributes of mesh.{fld} are exported not recognised", "")
             continue
